@@ -462,7 +462,8 @@ impl HalfConnection {
                     let packet_ref = packet_rc.borrow();
 
                     if packet_ref.fragment_acknowledged(entry.fragment_ref.fragment_id) {
-                        self.resend_queue.pop();
+                        std::mem::drop(packet_ref);
+                        self.pending_queue.pop_front();
                         continue;
                     }
 
@@ -479,7 +480,7 @@ impl HalfConnection {
                         self.resend_queue.push(resend_queue::Entry::new(entry.fragment_ref, now_ms + rtt_ms, 1));
                     }
                 } else {
-                    self.resend_queue.pop();
+                    self.pending_queue.pop_front();
                     continue;
                 }
             }
